@@ -128,7 +128,7 @@ structure State where
 
 def init : State := {}
 def get (s : State) (t : Nat) : St := (s.trees.lookup t).getD {}
-def set (s : State) (t : Nat) (x : St) : State := { trees := (t, x) :: s.trees.filter (fun p => p.1 != t) }
+def set (s : State) (t : Nat) (x : St) : State := { s with trees := (t, x) :: s.trees.filter (fun p => p.1 != t) }
 
 def showPc : Pc → String
   | .lookup => "lookup" | .park => "park" | .recheck => "recheck" | .chk => "chk"
@@ -211,6 +211,17 @@ def step (s : State) (toks : List String) : State × String :=
     | some t =>
       match C01.step (get s t) .flush with
       | some x => let x := drain x; (set s t x, obs x)
+      | none => (s, "disabled")
+    | none => (s, "bad-op")
+  -- a later registration of the tree (known or not) followed at once by its flush
+  | ["reflush", t] =>
+    match t.toNat? with
+    | some t =>
+      match C01.step (get s t) .localSet with
+      | some x1 =>
+        match C01.step x1 .flush with
+        | some x => let x := drain x; (set s t x, obs x)
+        | none => (s, "disabled")
       | none => (s, "disabled")
     | none => (s, "bad-op")
   -- the transmitMux region: `iarrive <tok> <m>` (the thread runs until it is handed over, blocked on the
